@@ -184,7 +184,7 @@ def layout(kind, i, focus):
 
 
 # ------------------------------------------------------------------------------------------ reject, not trim
-BAD_EXPRS = ['amount >', 'lambda: 0', 'contains("A"', '__import__("os")', '1 +* 2', 'amount ** 2']
+BAD_EXPRS = ['amount >', 'lambda: 0', 'contains("A"', '[1, 2]', '1 +* 2', 'amount ** 2']
 UNKNOWN_KEYS = ['matches', 'tag', 'categroy', 'cat egory', 'filter', 'Sub-category']
 BAD_PRIO = ['high', '1.5', '', '1e3']
 
